@@ -72,12 +72,13 @@ def cases_for(prop, tier, seed):
         return gen.fam_teardown(g, "C06-td", 100 * k) + [c for c in gen.fam_combinators(g, "C06-comb", 60 * k) if "flat_map" in c or "(unsub" in c]
     if prop == "C07":
         return (gen.fam_reentrant(g, "C07-re", 10) + gen.fam_teardown(g, "C07-td", 30 * k) +
-                gen.fam_connectables(g, "C07-conn", 30 * k) + gen.fam_subjects(g, "C07-subj", 20 * k) +
+                gen.fam_connectables(g, "C07-conn", 30 * k) + gen.fam_conn_reentrant(g, "C07-cre", 0) + gen.fam_subjects(g, "C07-subj", 20 * k) +
                 gen.fam_chains(g, "C07-chain", 100 * k) + gen.fam_hot(g, "C07-hot", 100 * k))
     if prop == "C10":
-        return gen.fam_subjects(g, "C10-subj", 100 * k, exhaustive_len=(4 if T else 3))
+        return (gen.fam_subjects(g, "C10-subj", 100 * k, exhaustive_len=(4 if T else 3)) +
+                [c for c in gen.fam_reentrant(g, "C10-re", 0) if "(sub (ref a) (react" in c])
     if prop == "C13":
-        return gen.fam_connectables(g, "C13-conn", 150 * k)
+        return gen.fam_connectables(g, "C13-conn", 150 * k) + gen.fam_conn_reentrant(g, "C13-re", 0)
     if prop == "C14":
         return gen.fam_resubscribe(g, "C14-resub", 100 * k)
     if prop == "C17":
